@@ -956,7 +956,7 @@ def case_split(term_fn, depth: int = 2, rels=()):
 
 
 PRED_SIZES = [(1, 1), (2, 1), (1, 1, 1), (1, 2, 1)]
-PRED_THOROUGH = [(1, 1, 1, 1), (2, 1, 1, 2), (1, 1, 1, 1, 1), (3, 2, 1)]
+PRED_THOROUGH = [(1, 1, 1, 1), (2, 1, 1, 2), (1, 1, 1, 1, 1), (3, 2, 1), (4, 4, 3)]
 
 
 def _pred_sizes(tier: str):
@@ -1444,11 +1444,12 @@ def c15_job(job) -> List[Dict[str, Any]]:
     return out
 
 
-def _run_predict_seeded(prog, roles, op, sizes, rels):
+def _run_predict_seeded(prog, roles, op, sizes, rels, assume_close=None):
     w = World(prog, roles, Box())
     I = w.I
     I.number_locals = True
     I.explicit = True
+    I.assume_close = assume_close
     common = prog.modules.get(f"{prog.package}.models.weng_lin.common")
     if common is not None:
         I.opaque_funcs = {common.funcs[n].fq for n in CORRECTIONS if n in common.funcs}
@@ -1511,15 +1512,38 @@ def c11_rank_job(job) -> List[Dict[str, Any]]:
                     for fa, fb in zip(forms(syms[i]), forms(syms[j])):
                         rels.append((fa, fb, rel))
             desc = f"{head}: " + describe(lv, "p").replace("<", ">")
-            try:
-                run = _run_predict_seeded(prog, roles, "predict_rank", sizes, rels)
-                bad = run.ok()
-                res = None if bad else result_numbers(run)
-            except Exception as e:  # noqa: BLE001
-                bad, res = f"abstract evaluation failed: {type(e).__name__}: {e}", None
-            ranks = None
-            if res is not None and len(res) == n and all(isinstance(x, TupleV) and len(x.items) == 2 and isinstance(x.items[0], Num) for x in res):
-                ranks = [x.items[0].const for x in res]
+
+            def ranks_under(assume_close):
+                try:
+                    run_ = _run_predict_seeded(prog, roles, "predict_rank", sizes, rels, assume_close)
+                    bad_ = run_.ok()
+                    res_ = None if bad_ else result_numbers(run_)
+                except Exception as e:  # noqa: BLE001
+                    return None, f"abstract evaluation failed: {type(e).__name__}: {e}", False
+                rk = None
+                if res_ is not None and len(res_) == n and all(isinstance(x, TupleV) and len(x.items) == 2 and isinstance(x.items[0], Num) for x in res_):
+                    rk = [x.items[0].const for x in res_]
+                return rk, bad_, bool(run_.world.I.tolerance_tests)
+
+            ranks, bad, tol = ranks_under(None)
+            if tol and (ranks is None or any(not isinstance(r, int) or isinstance(r, bool) for r in ranks)):
+                # the ranking consults a tolerance test (math.isclose) on the probabilities: two probabilities in a strict order can be
+                # arbitrarily close, so the clause must hold when every such test answers "close" (and when it answers "not close")
+                for assume, word in ((True, "close"), (False, "not close")):
+                    rk, bad2, _ = ranks_under(assume)
+                    if rk is None or any(not isinstance(r, int) or isinstance(r, bool) for r in rk):
+                        continue
+                    probs = []
+                    for i in range(n):
+                        for j in range(n):
+                            if lv[i] < lv[j] and not rk[i] < rk[j]:
+                                probs.append(f"p{i} > p{j} but rank {rk[i]} is not better than {rk[j]}")
+                    if probs:
+                        ranks = rk
+                        bad = None
+                        desc += f" [every tolerance test on the probabilities answering '{word}']"
+                        break
+                    ranks = rk
             if ranks is None or any(not isinstance(r, int) or isinstance(r, bool) for r in ranks):
                 out.append(_inst("R11.9", "UNDECIDED", roles, "predict_rank", desc, bad or "the ranks are not integer constants under this ordering"))
                 worst = "UNDECIDED" if worst == "HOLDS" else worst
